@@ -147,6 +147,9 @@ def uplinkCmdLen : Nat → Option Nat
   | 0x07 => some 1 | 0x08 => some 0 | 0x09 => some 0 | 0x0A => some 1 | 0x0D => some 0
   | _ => none
 
+/-- the answers that are repeated until the next Class A downlink -/
+def isSticky (cid : Nat) : Bool := cid == 0x05 || cid == 0x08 || cid == 0x0A
+
 /-- `clear_mac_commands(true)`: keep exactly the sticky answers (RXParamSetupAns 0x05,
 RXTimingSetupAns 0x08, DlChannelAns 0x0A) of the well-formed prefix -/
 def retainSticky : Nat → List Nat → List Nat
@@ -158,8 +161,7 @@ def retainSticky : Nat → List Nat → List Nat
     | some n =>
       if rest.length < n then []
       else
-        let keep := cid == 0x05 || cid == 0x08 || cid == 0x0A
-        (if keep then cid :: rest.take n else []) ++ retainSticky fuel (rest.drop n)
+        (if isSticky cid then cid :: rest.take n else []) ++ retainSticky fuel (rest.drop n)
 
 /-! ## downlink MAC commands (`maccommands.rs` iterator + `handle_downlink_macs`) -/
 
@@ -202,31 +204,64 @@ structure MacCtx where
   cfg : Config
   region : RegionState
   pending : List Nat
+  /-- an answer of this downlink already had to be dropped: drop all later ones too -/
+  full : Bool := false
   deriving Repr
 
-/-- one LinkADRReq block ending with payload `last` (DataRate_TXPower of the last command counts);
-`mask`/`rfu` are the channel-mask working copy after all commands of the block -/
-def finishLinkAdrBlock (c : MacCtx) (mask : Mask) (rfu : Bool) (n : Nat) (last : List Nat) : M MacCtx := do
-  let b0 ← byteAt last 0
-  let drRaw := b0 / 16
-  let pwRaw := b0 % 16
-  let dr : Option Nat := if drRaw == 15 then some c.cfg.dataRate
-    else if (getDatarate c.region.id drRaw).isSome then some drRaw else none
-  let pw : Option (Option Nat) ← (if pwRaw == 15 then pure (some c.cfg.txPower) else do
-    match (← txPowerAdjust c.region.id pwRaw) with
+/-- `push_answer`: queue an answer unless an earlier one of this downlink did not fit -/
+def MacCtx.push (c : MacCtx) (cid : Nat) (payload : List Nat) : MacCtx :=
+  if c.full then c
+  else if c.pending.length + payload.length < 15 then { c with pending := c.pending ++ cid :: payload }
+  else { c with full := true }
+
+/-- DataRate field of a LinkADRReq: 15 keeps the current rate, an undefined rate is refused -/
+def linkAdrDr (cfg : Config) (r : RegionId) (drRaw : Nat) : Option Nat :=
+  if drRaw == 15 then some cfg.dataRate
+  else if (getDatarate r drRaw).isSome then some drRaw else none
+
+/-- TXPower field: 15 keeps the current power, an undefined index is refused -/
+def linkAdrPw (cfg : Config) (r : RegionId) (pwRaw : Nat) : M (Option (Option Nat)) :=
+  if pwRaw == 15 then pure (some cfg.txPower) else do
+    match (← txPowerAdjust r pwRaw) with
     | some p => pure (some (some p))
-    | none => pure none)
+    | none => pure none
+
+def linkAdrCmAck (region : RegionState) (mask : Mask) (rfu : Bool) (dr : Option Nat) : M Bool := do
   let drEnum : Option DR ← (match dr with
     | some d => do pure (some (← drOfNat d))
     | none => pure none)
-  let cmAck ← (if rfu then pure false else channelMaskValidate c.region mask drEnum)
-  let c := match cmAck, dr, pw with
-    | true, some d, some p =>
-      { c with cfg := { c.cfg with dataRate := d, txPower := p }, region := channelMaskSet c.region mask }
-    | _, _, _ => c
+  if rfu then pure false else channelMaskValidate region mask drEnum
+
+/-- decision of one LinkADRReq block: the answer byte and the state after it.
+`mask`/`rfu`: the channel-mask working copy after all commands of the block and whether one of
+them carried a ChMaskCntl the region does not define; `drRaw`/`pwRaw`: DataRate_TXPower of the
+last command of the block -/
+def linkAdrDecide (cfg : Config) (region : RegionState) (mask : Mask) (rfu : Bool) (drRaw pwRaw : Nat) :
+    M (Nat × Config × RegionState) := do
+  let dr := linkAdrDr cfg region.id drRaw
+  let pw ← linkAdrPw cfg region.id pwRaw
+  let cmAck ← linkAdrCmAck region mask rfu dr
   let ans := (if cmAck then 1 else 0) + (if dr.isSome then 2 else 0) + (if pw.isSome then 4 else 0)
-  let pending := (List.range n).foldl (fun p _ => addMacCommand p 0x03 [ans]) c.pending
-  pure { c with pending := pending }
+  match cmAck, dr, pw with
+  | true, some d, some p => pure (ans, { cfg with dataRate := d, txPower := p }, channelMaskSet region mask)
+  | _, _, _ => pure (ans, cfg, region)
+
+def finishLinkAdrBlock (c : MacCtx) (mask : Mask) (rfu : Bool) (n : Nat) (last : List Nat) : M MacCtx := do
+  let b0 ← byteAt last 0
+  let (ans, cfg, region) ← linkAdrDecide c.cfg c.region mask rfu (b0 / 16) (b0 % 16)
+  pure ((List.range n).foldl (fun c _ => c.push 0x03 [ans]) { c with cfg := cfg, region := region })
+
+/-- RXParamSetupReq: answer byte and configuration after it -/
+def rxParamSetup (cfg : Config) (r : RegionId) (dl f : Nat) : Nat × Config :=
+  let fAck := frequencyValid r f
+  let off := rx1DrOffsetValidate r ((dl / 16) % 8)
+  let rx2raw := dl % 16
+  let rx2 : Option (Option Nat) := if rx2raw == 15 then some cfg.rx2DataRate
+    else if (getDatarate r rx2raw).isSome then some (some rx2raw) else none
+  let cfg' := match fAck, rx2, off with
+    | true, some r2, some o => { cfg with rx2DataRate := r2, rx2Frequency := some f, rx1DrOffset := o }
+    | _, _, _ => cfg
+  ((if fAck then 1 else 0) + (if rx2.isSome then 2 else 0) + (if off.isSome then 4 else 0), cfg')
 
 /-- `handle_downlink_macs` over the parsed prefix; the LinkADR block state is threaded explicitly -/
 def handleCmds (snr : Int) : List (Nat × List Nat) → MacCtx → Mask → Bool → Nat → M MacCtx
@@ -234,7 +269,7 @@ def handleCmds (snr : Int) : List (Nat × List Nat) → MacCtx → Mask → Bool
   | (cid, p) :: rest, c, mask, rfu, nAdr =>
     match cid with
     | 0x06 => -- DevStatusReq
-      handleCmds snr rest { c with pending := addMacCommand c.pending 0x06 [255, devStatusMargin snr] } mask rfu nAdr
+      handleCmds snr rest (c.push 0x06 [255, devStatusMargin snr]) mask rfu nAdr
     | 0x0A => do -- DlChannelReq
       if c.region.id.isFixed then handleCmds snr rest c mask rfu nAdr
       else
@@ -242,7 +277,7 @@ def handleCmds (snr : Int) : List (Nat × List Nat) → MacCtx → Mask → Bool
         let f ← freq24 p 1
         let ((ackF, ackC), region) ← channelDlUpdate c.region idx f
         let ans := (if ackF then 1 else 0) + (if ackC then 2 else 0)
-        handleCmds snr rest { c with region := region, pending := addMacCommand c.pending 0x0A [ans] } mask rfu nAdr
+        handleCmds snr rest ({ c with region := region }.push 0x0A [ans]) mask rfu nAdr
     | 0x03 => do -- LinkADRReq
       let cntl := ((← byteAt p 3) / 16) % 8
       let upd ← channelMaskUpdate c.region mask cntl (← byteAt p 1) (← byteAt p 2)
@@ -264,23 +299,13 @@ def handleCmds (snr : Int) : List (Nat × List Nat) → MacCtx → Mask → Bool
         let drr : Option Nat := if r / 16 < r % 16 then none else some r
         let ((ackF, ackD), region) ← handleNewChannel c.region idx f drr
         let ans := (if ackF then 1 else 0) + (if ackD then 2 else 0)
-        handleCmds snr rest { c with region := region, pending := addMacCommand c.pending 0x07 [ans] } mask rfu nAdr
+        handleCmds snr rest ({ c with region := region }.push 0x07 [ans]) mask rfu nAdr
     | 0x05 => do -- RXParamSetupReq
-      let dl ← byteAt p 0
-      let f ← freq24 p 1
-      let fAck := frequencyValid c.region.id f
-      let off := rx1DrOffsetValidate c.region.id ((dl / 16) % 8)
-      let rx2raw := dl % 16
-      let rx2 : Option (Option Nat) := if rx2raw == 15 then some c.cfg.rx2DataRate
-        else if (getDatarate c.region.id rx2raw).isSome then some (some rx2raw) else none
-      let cfg := match fAck, rx2, off with
-        | true, some r2, some o => { c.cfg with rx2DataRate := r2, rx2Frequency := some f, rx1DrOffset := o }
-        | _, _, _ => c.cfg
-      let ans := (if fAck then 1 else 0) + (if rx2.isSome then 2 else 0) + (if off.isSome then 4 else 0)
-      handleCmds snr rest { c with cfg := cfg, pending := addMacCommand c.pending 0x05 [ans] } mask rfu nAdr
+      let (ans, cfg) := rxParamSetup c.cfg c.region.id (← byteAt p 0) (← freq24 p 1)
+      handleCmds snr rest ({ c with cfg := cfg }.push 0x05 [ans]) mask rfu nAdr
     | 0x08 => do -- RXTimingSetupReq
       let d ← delToDelayMs ((← byteAt p 0) % 16)
-      handleCmds snr rest { c with cfg := { c.cfg with rx1Delay := d }, pending := addMacCommand c.pending 0x08 [] } mask rfu nAdr
+      handleCmds snr rest ({ c with cfg := { c.cfg with rx1Delay := d } }.push 0x08 []) mask rfu nAdr
     | _ => handleCmds snr rest c mask rfu nAdr
 
 def handleDownlinkMacs (snr : Int) (bytes : List Nat) (c : MacCtx) : M MacCtx :=
